@@ -18,7 +18,25 @@ OBLIGATIONS = [
     (P + "decode_writes_within", "for every (also malformed) input: decoded_size = m => raw decoder writes exactly m bytes"),
     (P + "decodeRaw_len1_writes_three", "documented excluded point: length 1 mod 4 is reported invalid, raw decoder writes 3"),
     (P + "b64_decode_encode", "for all s: decode (encode s) = s"),
+    (P + "form_inserts_escaped", "every stream insertion of every render function in src/form.cpp is a literal, a number, escaped, or a developer identifier that is raw by design"),
+    (P + "escape_eq_refEscape", "the model's escape equals the reference escaper used by the widget judge"),
 ]
+
+WIDGETS = ("text", "textarea", "password", "hidden", "checkbox", "select", "radio", "multi", "submit")
+
+
+def form_cases(rng, n):
+    """rendered widgets fed with hostile user text; each text starts with a unique alphanumeric tag"""
+    out = []
+    evil = [b"<script>alert('x')</script>\"&", b"<", b">", b"&", b"\"", b"'", b"&amp;", b"</textarea><b>", b"\" onmouseover=\"x", b"' or '1"]
+    for k in range(n):
+        w = WIDGETS[k % len(WIDGETS)]
+        texts = []
+        for tag in (b"Mq7", b"Hq7", b"Eq7", b"Vq7"):
+            body = rng.choice(evil) if rng.random() < 0.7 else bytes(rng.choice(b"<>&\"'ab ;#") for _ in range(rng.randrange(1, 12)))
+            texts.append(tag + body)
+        out.append(f"form {w} {rng.randrange(5)} {rng.randrange(2)} {rng.randrange(2)} " + " ".join(hexs(t) for t in texts))
+    return out
 
 SPECIAL = b"<>&\"'%+ -_.~=/\x00\xff\x7f;#ltgampquo39"
 
@@ -48,6 +66,8 @@ def gen_cases(c, scale):
     rng = c.rng
     cases = []
     add = cases.append
+    for cs in form_cases(rng, 400 * scale):
+        add(cs)
     # exhaustive: all strings of length 0..1, all of length 2 (thorough) or a sample (quick)
     short = [b""] + [bytes([a]) for a in range(256)]
     if c.tier == "thorough":
@@ -104,6 +124,12 @@ def judge_lines(cases, out_i):
     for k, (cs, o) in enumerate(zip(cases, out_i)):
         w = cs.split()
         op = w[0]
+        if op == "form":
+            if re.fullmatch(r"[0-9a-f]+", o):
+                res.append((k, "J form " + o + " " + " ".join(w[5:9]), None))
+            else:
+                res.append((k, None, False))
+            continue
         base = op.split("_")[0].replace("raw", "")
         if base in ("escape", "urlencode", "b64enc") and op != "escapesb":
             o1 = o[:-2] if op == "urlencode_sb" and o.endswith(" 1") else o
@@ -143,10 +169,28 @@ def main():
 
     if c.replay_path:
         rp = json.load(open(c.replay_path))
-        cases = [rp["case"]] if "case" in rp else []
+        cases = [rp["case"]] if rp.get("case") else []
     else:
         cases = gen_cases(c, scale)
 
+    form = [x for x in cases if x.startswith("form ")]
+    cases = [x for x in cases if not x.startswith("form ")]
+    if hbin and os.path.exists(model) and form:
+        # widget rendering: no executable model of the HTML scaffolding; the rendered output of the real
+        # widgets is judged with Spec.userTextEscaped (the static side is theorem form_inserts_escaped)
+        rc, fo, ferr = c.run_lines(hbin, form)
+        c.evaluations += len(form)
+        jl = judge_lines(form, fo)
+        rcj, jout, jerr = c.run_lines(model, [l for _, l, _ in jl if l])
+        jbad = [k for k, l, v in jl if v is False] + [k for (k, l, v), o in zip([x for x in jl if x[1]], jout) if o != "1"]
+        if rc != 0 or len(fo) < len(form):
+            c.violation("sanitizer abort / crash while rendering a widget", {"case": form[len(fo)] if len(fo) < len(form) else None, "stderr": ferr})
+        for k in sorted(jbad)[:10]:
+            c.violation("user text reaches the rendered widget unescaped", {"case": form[k], "impl_output": fo[k] if k < len(fo) else None})
+        for k in range(min(len(form), len(fo))):
+            c.nontrivial.add(form[k])
+        c.extra_cov["widgets_rendered_and_judged"] = len(jl)
+        c.log(f"widgets: {len(form)} rendered, {len(jbad)} judge failures")
     if hbin and os.path.exists(model) and cases:
         cases = list(dict.fromkeys(cases))
         out_i, out_m, diffs, crashed = c.correspond(
